@@ -119,9 +119,13 @@ def hostile_bytes(rng, maxlen=16, seven_bit=True, minlen=0, classes=None, tag=b'
             out.append(0)
         elif c == 'del':
             out.append(0x7f)
+        elif rng.random() < 0.45 and len(out) + 4 <= n + 3:
+            # bytes that happen to be well-formed UTF-8 (a producer that wrote UTF-8 into an 8 bit field): still just bytes
+            out.extend(rng.choice(['\u00d8', '\u00b5', '\u00b0', '\u00e9', '\u20ac', '\u2126', '\U0001d11e', '\u00df', '\u0394']).encode('utf-8'))
+            utf8 = True
         else:
             out.append(rng.choice([0x80, 0x85, 0xa0, 0xe9, 0xfe, 0xff]))
-    out = bytes(out[:n])
+    out = bytes(out[:n]) if not locals().get('utf8') else bytes(out)
     if tag:
         k = rng.randrange(0, len(out) + 1)
         out = out[:k] + tag + out[k:]
@@ -248,7 +252,7 @@ def _uniq(rng, taken, make):
     raise RuntimeError('cannot make a unique name')
 
 
-def rp66_file(rng, size='small', seven_bit=True, hostile_names=True, layout=None):
+def rp66_file(rng, size='small', seven_bit=True, hostile_names=True, layout=None, byte_classes=None):
     """A compact RP66V1 file whose strings are hostile.  seven_bit: keep IDENT/UNITS/ASCII strings below 0x80."""
     model = Rp66Model()
     lrs = []
@@ -260,7 +264,13 @@ def rp66_file(rng, size='small', seven_bit=True, hostile_names=True, layout=None
         if plain:
             b, lab = hostile_bytes(rng, maxlen, True, minlen, classes=['plain'], tag=tag)
         else:
-            b, lab = hostile_bytes(rng, maxlen, seven_bit, minlen, tag=tag)
+            # seven_bit='values': names, labels and units stay below 0x80 (the index writes them as ASCII), ASCII *values* do not
+            sb = seven_bit if isinstance(seven_bit, bool) else (kind not in ('ascii-value', 'value'))
+            cl = None
+            if byte_classes:
+                pool = [c for c in byte_classes if c != 'high' or not sb]
+                cl = rng.sample(pool, rng.randrange(1, min(3, len(pool)) + 1))
+            b, lab = hostile_bytes(rng, maxlen, sb, minlen, classes=cl, tag=tag)
         model.labels.add(lab)
         return b
 
@@ -347,10 +357,10 @@ def rp66_file(rng, size='small', seven_bit=True, hostile_names=True, layout=None
                 nm = _uniq(rng, taken_c, lambda: hb(8, 'name', 1)) if hostile_names else b'CH%d_%d' % (fti, ci)
                 rc = rng.choice([FDOUBL, FSINGL, SLONG, UNORM]) if ci == 0 else rng.choice(list(FRAME_FMT))
                 dims = [1] if ci == 0 else rng.choice([[1], [1], [2], [2, 3]])
-                chans.append(ChannelModel((org, 0, nm), rc, dims, hb(8, 'units') if rng.random() < 0.8 else b'', hb(30, 'ascii-value')))
+                chans.append(ChannelModel((org, 0, nm), rc, dims, hb(8, 'units') if rng.random() < 0.8 else b'', hb(30, 'long-name')))
             chan_models.extend(chans)
             fnm = _uniq(rng, taken_f, lambda: hb(8, 'name', 1)) if hostile_names else b'FT%d' % fti
-            fts.append(FrameTypeModel((org, 0, fnm), hb(30, 'ascii-value'), chans))
+            fts.append(FrameTypeModel((org, 0, fnm), hb(30, 'description'), chans))
         strs = []
         for c in chan_models:
             strs += [('name', c.name[2]), ('ascii-value', c.long_name)] + ([('units-value', c.units)] if c.units else [])
@@ -586,6 +596,12 @@ def _prov_rp66_high(rng):
     return Source('rp66v1', 'hostile-8bit', d, m, ['hostile-8bit'] + sorted(m.labels))
 
 
+def _prov_rp66_high_values(rng):
+    # only bytes XML can represent (no C0 controls): the documents parse, so that every value can be compared
+    d, m = rp66_file(rng, 'small', seven_bit='values', byte_classes=['plain', 'markup', 'tabnl', 'del', 'high', 'high'])
+    return Source('rp66v1', 'hostile-8bit-values', d, m, ['hostile-8bit-values'] + sorted(m.labels))
+
+
 def _prov_rp66_plain_names(rng):
     d, m = rp66_file(rng, 'small', hostile_names=False)
     return Source('rp66v1', 'hostile-values-only', d, m, ['hostile-values-only'] + sorted(m.labels))
@@ -604,7 +620,7 @@ def _prov_las_nocontrols(rng):
 # Richer generators (tdv.gen.logpass / tdv.gen.lis / tdv.gen.las) can be appended here by a later integration step:
 # each entry is fn(rng) -> Source.  A check iterates the list round-robin.
 PROVIDERS = {
-    'rp66v1': [_prov_rp66_small, _prov_rp66_medium, _prov_rp66_high, _prov_rp66_plain_names],
+    'rp66v1': [_prov_rp66_small, _prov_rp66_medium, _prov_rp66_high, _prov_rp66_plain_names, _prov_rp66_high_values],
     'las': [_prov_las, _prov_las_nocontrols],
     'lis': [],            # LIS sources are example files + mutate_printable (see C18); generated LIS plot files live in tdv.gen.plotsrc
 }
